@@ -3,6 +3,7 @@ package props
 import (
 	"bytes"
 	"fmt"
+	"sync"
 	"time"
 
 	psatoken "github.com/veraison/psatoken"
@@ -14,13 +15,56 @@ import (
 
 var c03stats *Stats
 
-func c03Eval(c *choice.Ctx, st *Stats, a *refmodel.Claims, x psatoken.IClaims, kind int, algName string, key *fixtures.Key, validating bool) {
+// c03Prior prepares an Evidence that has been used before: 1 = it decoded a token signed with another
+// algorithm, 2 = it signed other claims with another algorithm.
+func c03Prior(prior int, algName string) *psatoken.Evidence {
+	ev := &psatoken.Evidence{}
+	other := "EdDSA"
+	if algName == "EdDSA" {
+		other = "ES256"
+	}
+	switch prior {
+	case 1:
+		if err := ev.UnmarshalCOSE(append([]byte{}, c03PriorToken(other)...)); err != nil {
+			panic(choice.HarnessError{Msg: "c03 prior decode: " + err.Error()})
+		}
+	case 2:
+		x, _ := realise(c02Claims()[3])
+		if err := ev.SetClaims(x); err != nil {
+			panic(choice.HarnessError{Msg: err.Error()})
+		}
+		if _, err := ev.Sign(fixtures.Get(other, 2).Signer()); err != nil {
+			panic(choice.HarnessError{Msg: "c03 prior sign: " + err.Error()})
+		}
+	}
+	return ev
+}
+
+var c03PriorTokens = map[string][]byte{}
+var c03PriorMu sync.Mutex
+
+// c03PriorToken: a P2 token with every optional claim, signed with alg.
+func c03PriorToken(alg string) []byte {
+	c03PriorMu.Lock()
+	defer c03PriorMu.Unlock()
+	if t, ok := c03PriorTokens[alg]; ok {
+		return t
+	}
+	t := c02MakeSeed(alg, 2, 3).tok
+	c03PriorTokens[alg] = t
+	return t
+}
+
+func c03Eval(c *choice.Ctx, st *Stats, a *refmodel.Claims, x psatoken.IClaims, kind int, algName string, key *fixtures.Key, validating bool, prior int) {
 	tag := fmt.Sprintf("%s:%s", kindNames[kind], algName)
+	if prior != 0 {
+		tag += fmt.Sprintf(":evidence-used-before-%d", prior)
+	}
 	desc := ""
 	if c.Tracing() {
 		desc = a.String()
 	}
-	ev := &psatoken.Evidence{}
+	ev := c03Prior(prior, algName)
 	if err := ev.SetClaims(x); err != nil {
 		c.Failf("C03:setclaims:"+tag, "SetClaims rejected a valid claims-set: %v\n%s", err, desc)
 		return
@@ -99,6 +143,17 @@ func c03Eval(c *choice.Ctx, st *Stats, a *refmodel.Claims, x psatoken.IClaims, k
 	} else if y, err := psatoken.DecodeClaimsFromCBOR(payload); err != nil || getterVector(y) != g2 {
 		c.Failf("C03:claims-not-from-payload:"+tag, "claims exposed by the decoded Evidence are not the decoding of the covered payload (err=%v)", err)
 	}
+	// decoding the token into an Evidence that decoded a fuller token before exposes exactly the token's claims
+	used := &psatoken.Evidence{}
+	if err := used.UnmarshalCOSE(append([]byte{}, c03PriorToken("ES256")...)); err == nil {
+		if err := used.UnmarshalCOSE(append([]byte{}, tok...)); err != nil {
+			c.Failf("C03:reused-evidence-decode-error:"+tag, "%v", err)
+		} else if g3 := getterVector(used.Claims); g3 != gx {
+			c.Failf("C03:reused-evidence-claims-differ:"+tag, "an Evidence that decoded another token before exposes claims that are not the token's\n token  %s\n reused %s", gx, g3)
+		} else if err := used.Verify(key.Pub); err != nil {
+			c.Failf("C03:reused-evidence-verify:"+tag, "%v", err)
+		}
+	}
 	st.Outcome("round-trip-ok:" + algName)
 }
 
@@ -110,6 +165,7 @@ func init() {
 				algName := fixtures.AlgNames[c.Choose("alg", len(fixtures.AlgNames))]
 				key := fixtures.Get(algName, 1+c.Choose("key", 2))
 				validating := c.Choose("entry", 2) == 0
+				prior := c.Choose("evidence-used-before", 3)
 				a := genValid(c, kind, false)
 				x, err := buildBySetters(a)
 				if err == errNotRepresentable {
@@ -119,8 +175,8 @@ func init() {
 					c.Failf("C03:build:"+kindNames[kind], "cannot build: %v\n%s", err, a.String())
 					return
 				}
-				c03stats.StateStr(algName + key.Name + a.String())
-				c03Eval(c, c03stats, a, x, kind, algName, key, validating)
+				c03stats.StateStr(fmt.Sprint(prior) + algName + key.Name + a.String())
+				c03Eval(c, c03stats, a, x, kind, algName, key, validating, prior)
 			}, nil
 		}
 	}
